@@ -49,6 +49,9 @@ ASSUMPTIONS = [
     'consumer check: tolerance 1e-9 relative to sum_j |Gamma[i,j]| * (sum of absolute Taylor terms along ray j); '
     'reference = exact polynomial differentiation (oracles.ExactPoly, Fractions) resp. mpmath.diff at 40 digits',
     'extract_tensor(as_full_matrix=True) is only asserted for d = 2 (its docstring: "extracts the Hessian of shape (N,N)")',
+    'base points of the consumer checks are passed to init_tensor as float64, int64, int32, float32 ndarrays, as lists of '
+    'Python ints and as non-contiguous float64 views; the reference uses the float64 value of the point; the argument must '
+    'be left unchanged',
 ]
 
 
@@ -159,6 +162,25 @@ def prop_pair(case, stats):
                     worst = q
     stats.err(float(worst))
     stats.event('identities=%d' % (NJ * NJ))
+    if NJ <= 40:
+        # history / argument-type independence (cheap pairs only): the same call again after another pair was generated,
+        # and with NumPy integer arguments, must reproduce the first result bit for bit, and the arrays returned by the
+        # first call must not have been touched by the later calls
+        snap = (G.tobytes(), rays.tobytes(), np.asarray(J).tobytes())
+        guard(exint.generate_Gamma_and_rays, 2, 3)
+        G2, rays2 = guard(exint.generate_Gamma_and_rays, np.int64(N), np.int32(d))
+        J2 = guard(exint.generate_multi_indices, np.int32(N), np.int64(d))
+        G3, rays3 = guard(exint.generate_Gamma_and_rays, N, d)
+        if (G.tobytes(), rays.tobytes(), np.asarray(J).tobytes()) != snap:
+            raise Violation('%s: arrays returned by the first call were modified by later calls' % what)
+        for lbl, a, b in (('Gamma (NumPy integer arguments)', G, G2), ('rays (NumPy integer arguments)', rays, rays2),
+                          ('multi-indices (NumPy integer arguments)', J, J2), ('Gamma (second call)', G, G3),
+                          ('rays (second call)', rays, rays3)):
+            a = np.asarray(a)
+            b = np.asarray(b)
+            if a.shape != b.shape or not np.array_equal(a, b):
+                raise Violation('%s: %s differ from the first call' % (what, lbl))
+        stats.event('repeat-call-checked')
 
 
 def _pair_classes(case):
@@ -188,6 +210,40 @@ def _weighted_pairs(tier):
     # non-trivial pairs first: Hypothesis favours the front of a sampled_from list
     pool.sort(key=lambda p: (not (p[0] >= 2 and p[1] >= 2), p))
     return pool
+
+
+# ---- forms of the base point handed to UTPM.init_tensor -----------------------------------------------------------
+X0_FORMS = ['f64', 'f64', 'f64', 'int64', 'int32', 'pylist', 'f32', 'strided']
+
+
+def _x0_arg(case):
+    """the object passed as base point: float64 / int64 / int32 / float32 ndarray, a list of Python ints, or a
+    non-contiguous float64 view; the reference always uses the float64 VALUE of the point"""
+    x0 = case['x0']
+    form = case.get('x0_form', 'f64')
+    if form == 'pylist':
+        return [int(v) for v in x0]
+    if form == 'strided':
+        big = np.zeros(2 * len(x0))
+        big[::2] = np.asarray(x0, dtype=float)
+        return big[::2]
+    return np.array(x0, copy=True)
+
+
+def _x0_unchanged(what, arg, case):
+    want = np.asarray(case['x0'], dtype=float)
+    got = np.asarray(arg, dtype=float)
+    if got.shape != want.shape or not np.array_equal(got, want):
+        raise Violation('%s: init_tensor modified its base point argument: %r' % (what, np.asarray(arg).tolist()))
+
+
+def _x0_build(form, ints=None, vals=None):
+    if form in ('int64', 'int32', 'pylist'):
+        return np.array(ints, dtype={'int64': np.int64, 'int32': np.int32, 'pylist': np.int64}[form])
+    if form == 'f32':
+        return np.array(vals, dtype=np.float32)
+    return np.array(vals, dtype=float)
+
 
 
 def _fact(al):
@@ -226,15 +282,17 @@ def prop_poly(case, stats):
     N, d = int(case['N']), int(case['d'])
     x0 = np.asarray(case['x0'], dtype=float)
     terms = [(tuple(k), c) for k, c in case['terms']]
-    what = 'poly(N=%d,d=%d)' % (N, d)
+    what = 'poly(N=%d,d=%d,base point passed as %s)' % (N, d, case.get('x0_form', 'f64'))
     labels = _labels(N, d, what)
     p = _poly_from_terms(N, terms)
     pabs = ExactPoly(N, {k: abs(v) for k, v in p.t.items()})
     xf = [Fraction(float(v)) for v in x0]
     xa = [abs(v) for v in xf]
 
+    arg = _x0_arg(case)
+
     def run():
-        x = UTPM.init_tensor(d, x0.copy())
+        x = UTPM.init_tensor(d, arg)
         y = None
         for k, c in terms:
             m = None
@@ -250,6 +308,7 @@ def prop_poly(case, stats):
         full = UTPM.extract_tensor(N, y) if d == 2 else None
         return vec, full
     vec, full = guard(run)
+    _x0_unchanged(what, arg, case)
     vec = np.asarray(vec, dtype=float)
     NJ = len(labels)
     if vec.shape != (NJ,):
@@ -317,7 +376,7 @@ def _poly_nontrivial(case):
 def _poly_classes(case):
     d = case['d']
     degs = [sum(k) for k, c in case['terms']]
-    c = ['N=%d' % case['N'], 'd=%d' % d, 'consumer:poly', 'terms=%d' % len(degs)]
+    c = ['N=%d' % case['N'], 'd=%d' % d, 'consumer:poly', 'terms=%d' % len(degs), 'x0-form=' + case.get('x0_form', 'f64')]
     if any(g < d for g in degs):
         c.append('has-degree<d')
     if any(g == d for g in degs):
@@ -356,9 +415,13 @@ def poly_cases(draw, tier):
         k = draw(_exponent(N, deg))
         c = draw(st.integers(-9, 9).map(lambda v: v if v else 1))
         terms[k] = c
-    pt = st.one_of(st.integers(-3, 3).map(float), st.integers(-12, 12).map(lambda v: v / 4.0))
-    x0 = draw(st.lists(pt, min_size=N, max_size=N))
-    return {'N': N, 'd': d, 'x0': np.array(x0, dtype=float), 'terms': [(k, terms[k]) for k in sorted(terms)]}
+    form = draw(st.sampled_from(X0_FORMS))
+    if form in ('int64', 'int32', 'pylist'):
+        x0 = _x0_build(form, ints=draw(st.lists(st.integers(-3, 3), min_size=N, max_size=N)))
+    else:
+        pt = st.one_of(st.integers(-3, 3).map(float), st.integers(-12, 12).map(lambda v: v / 4.0))
+        x0 = _x0_build(form, vals=draw(st.lists(pt, min_size=N, max_size=N)))
+    return {'N': N, 'd': d, 'x0': x0, 'x0_form': form, 'terms': [(k, terms[k]) for k in sorted(terms)]}
 
 
 # ridge functions g(a . x): D^alpha f (x0) / alpha! = a^alpha / alpha! * g^(d)(a . x0)
@@ -375,17 +438,20 @@ def prop_ridge(case, stats):
     g_ad, g_mp = RIDGE[case['g']]
     a = np.asarray(case['a'], dtype=float)
     x0 = np.asarray(case['x0'], dtype=float)
-    what = 'ridge:%s(N=%d,d=%d)' % (case['g'], N, d)
+    what = 'ridge:%s(N=%d,d=%d,base point passed as %s)' % (case['g'], N, d, case.get('x0_form', 'f64'))
     labels = _labels(N, d, what)
 
+    arg = _x0_arg(case)
+
     def run():
-        x = UTPM.init_tensor(d, x0.copy())
+        x = UTPM.init_tensor(d, arg)
         u = None
         for i in range(N):
             t = float(a[i]) * x[i]
             u = t if u is None else u + t
         return UTPM.extract_tensor(N, g_ad(u), as_full_matrix=False)
     vec = np.asarray(guard(run), dtype=float)
+    _x0_unchanged(what, arg, case)
     if vec.shape != (len(labels),):
         raise Violation('%s: extract_tensor has shape %s' % (what, vec.shape))
     old = mp.dps
@@ -427,7 +493,7 @@ def _ridge_nontrivial(case):
 
 
 def _ridge_classes(case):
-    return ['N=%d' % case['N'], 'd=%d' % case['d'], 'consumer:ridge:' + case['g']]
+    return ['N=%d' % case['N'], 'd=%d' % case['d'], 'consumer:ridge:' + case['g'], 'x0-form=' + case.get('x0_form', 'f64')]
 
 
 @st.composite
@@ -438,8 +504,12 @@ def ridge_cases(draw, tier):
     a = draw(st.lists(coef, min_size=N, max_size=N))
     if not any(a):
         a[0] = 1.0
-    x0 = draw(st.lists(st.integers(-8, 8).map(lambda v: v / 8.0), min_size=N, max_size=N))
-    return {'N': N, 'd': d, 'g': g, 'a': np.array(a, dtype=float), 'x0': np.array(x0, dtype=float)}
+    form = draw(st.sampled_from(X0_FORMS))
+    if form in ('int64', 'int32', 'pylist'):
+        x0 = _x0_build(form, ints=draw(st.lists(st.integers(-2, 2), min_size=N, max_size=N)))
+    else:
+        x0 = _x0_build(form, vals=draw(st.lists(st.integers(-8, 8).map(lambda v: v / 8.0), min_size=N, max_size=N)))
+    return {'N': N, 'd': d, 'g': g, 'a': np.array(a, dtype=float), 'x0': x0, 'x0_form': form}
 
 
 # ---------------------------------------------------------------------------
